@@ -113,7 +113,7 @@ def gen_cases(ctx, n):
     for i in range(n):
         d = hostile_archive(r)
         for mode in (r.sample(MODES, 5) if ctx.tier == "quick" else MODES):
-            out.append(Case("cli18 %s %s %s" % (mode, r.choice(["file", "file", "stdin"]), d.hex()), tags={"cli", "mode=" + mode}, note="cli"))
+            out.append(Case("cli18 %s %s %s" % (mode, r.choice(["file", "file", "stdin"]) + r.choice(["", "@loc"]), d.hex()), tags={"cli", "mode=" + mode}, note="cli"))
     return out
 
 
@@ -126,6 +126,11 @@ def prepare(ctx, env):
     if lha is None:
         return "lha tool: " + err
     env["lha"] = lha
+    # an 8-bit locale for half of the tool runs (see vlib/locale8.py); without localedef every run uses the C locale
+    from vlib import locale8
+    loc, why = locale8.build(ctx.tmp)
+    env["loc"] = loc
+    ctx.extra["locale8"] = why
     return None
 
 
@@ -137,15 +142,22 @@ def run_cli18(env, ctx, op):
         ap = os.path.join(d, "a.lzh")
         open(ap, "wb").write(data)
         wd = os.path.join(d, "w"); os.mkdir(wd)
+        lenv = env.get("loc") if how.endswith("@loc") else None
+        how = how.split("@")[0]
+        if lenv is not None:
+            _run = core.run_cli
+            run8 = lambda exe, args, cwd, stdin_data=None: _run(exe, args, cwd, stdin_data=stdin_data, env=lenv)
+        else:
+            run8 = core.run_cli
         if "+" in mode:
             # first a quiet forced extraction, then the same archive again with the prompt policy and scripted answers
-            core.run_cli(env["lha"], ["xqf", ap], wd, stdin_data=b"")
+            run8(env["lha"], ["xqf", ap], wd, stdin_data=b"")
             m2, ans = mode.split("+")
-            rc, so, se, verdict = core.run_cli(env["lha"], [m2, ap], wd, stdin_data=ANSWERS[ans])
+            rc, so, se, verdict = run8(env["lha"], [m2, ap], wd, stdin_data=ANSWERS[ans])
         elif how == "file":
-            rc, so, se, verdict = core.run_cli(env["lha"], [mode, ap], wd, stdin_data=b"")
+            rc, so, se, verdict = run8(env["lha"], [mode, ap], wd, stdin_data=b"")
         else:
-            rc, so, se, verdict = core.run_cli(env["lha"], [mode, "-"], wd, stdin_data=data)
+            rc, so, se, verdict = run8(env["lha"], [mode, "-"], wd, stdin_data=data)
         if verdict != "ok":
             return verdict
         # the archive path itself is echoed in some error messages: it is ours and printable
